@@ -2,7 +2,9 @@
 //!
 //! Layout: `round.rs` (Disk / Sphere), `segment.rs` (LineSegment2/3), `ray.rs` (Ray::triangle_intersection);
 //! `round_scale.rs` (scaled / overflowing / negative-radius disks and spheres, tiny and huge shapes) and
-//! `ray_scale.rs` (ray-triangle with triangle size, direction length and distance scaled by powers of two).
+//! `ray_scale.rs` (ray-triangle with triangle size, direction length and distance scaled by powers of two),
+//! `ray_edge.rs` (floats: crossings exactly on an edge / vertex, both windings and senses, exactly evaluable),
+//! `round_near.rs` (points a relative 1e-6 .. 1e-15 from the sphere, diagonals / axes, exact i128 oracle).
 //! All oracles work on plain arrays in the *oracle domain* `S::O` (`Rat` for `Rat`, `f64` for `f64`/`f32`)
 //! and never call the vek function they judge.
 
@@ -207,8 +209,10 @@ pub fn nonzero_count<S: Dom, const N: usize>(a: &[S; N]) -> usize {
 }
 
 mod ray;
+mod ray_edge;
 mod ray_scale;
 mod round;
+mod round_near;
 mod round_scale;
 mod segment;
 
@@ -219,13 +223,15 @@ pub fn property() -> Property {
     ray::checks(&mut checks);
     round_scale::checks(&mut checks);
     ray_scale::checks(&mut checks);
+    round_near::checks(&mut checks);
+    ray_edge::checks(&mut checks);
     Property {
         id: "C16",
         rule: "cases are byte tapes generated by proptest (uniform bytes, fixed seed) decoded by constructive generators into labelled classes (plus two exhaustive small integer grids); \
 a disk/sphere case is non-trivial when the radius is within one grid step (resp. the chosen delta) of the distance — tangency, just inside, just outside — or the offset has >= 2 non-zero components; \
 a shape case (bounds, measures) when the radius is neither 0 nor 1; a segment case when the segment is not axis-aligned or the foot of the perpendicular is at/next to an end or outside the segment; \
 a ray case when the crossing is on/next to an edge or vertex, the triangle is degenerate, the ray is parallel to the plane, or the direction has >= 2 non-zero components; \
-the *-scale-*, *-tiny-*, *-huge-* checks apply the same rules to the same arrangements multiplied exactly by powers of two (the scale regime is a label, not part of the rule); every *-neg-* and *-shape-scale-* case counts (negative / special radius resp. radius far from 1 by construction); distinct = distinct consumed tape prefix per check",
+the *-scale-*, *-tiny-*, *-huge-* checks apply the same rules to the same arrangements multiplied exactly by powers of two (the scale regime is a label, not part of the rule); every ray-edge-* case counts (crossing exactly on an edge / vertex, or an exact control) unless it is labelled not exactly evaluable; a *-near-* case counts when |D2 - R^2| > 4 eps R^2 (asserted); every *-neg-* and *-shape-scale-* case counts (negative / special radius resp. radius far from 1 by construction); distinct = distinct consumed tape prefix per check",
         assumptions: &[
             "rustc and the proptest runner/shrinker are trusted",
             "oracles: integer / rational squared-distance comparison (no sqrt), Cramer solve through vkit::refmath::det (Leibniz), clamped-parameter closed form plus a 257-point sampling of the segment; none calls the vek function it judges",
@@ -234,6 +240,8 @@ the *-scale-*, *-tiny-*, *-huge-* checks apply the same rules to the same arrang
             "scaled integer grid (disk/sphere-scale-*): the same exactness argument holds for the grid times 2^k as long as every square and the sum d2 * 2^2k is a normal, finite number (f64: -500 <= k, d2 * 4^k < 2^1023; f32: -60 <= k, d2 * 4^k < 2^127; f64 additionally integer d2 < 2^48 and R < 2^25, where R (2R+1) < 2^53 keeps sqrt(R^2+1) more than half an ulp above R). Where d^2 may overflow, the documented formula `distance <= radius` sees an infinite distance: 'outside -> false' is still asserted, 'inside -> true' is NOT (any implementation that squares the coordinates loses it); squares that underflow (k below the stated bounds) are not generated",
             "negative radii (*-neg-*): the statement has no restriction on the radius and vek documents none, so it is read literally: no distance is <= a negative radius or a negative sum of radii, hence contains_point / collides_with_* are false (one negative radius with a non-negative sum: d <= r1 + r2); radius -0.0 is 0, radius +inf contains / collides with every finite shape, -inf with none; NaN radii are not generated. The collision vector is only called with radii >= 0 (tangency at a negative distance has no meaning); bounds and measures of negative radii are checked against the literal formulas only",
             "ray-scale-*: integer configurations, positions * 2^kt, direction * 2^kd (f64 |kt| <= 200, |kd| <= 100; f32 |kt| <= 30, |kd| <= 20; Rat kt in -28..12, |kd| <= 14; hit parameter up to 2^30 / 2^8 / 2^10 direction lengths): all of vek's intermediate products stay normal finite numbers, the oracle is an exact i128 Cramer solve. 'parallel' means a determinant that vanishes to within rounding RELATIVE to its factors: cases with |a| <= 2 eps * max|edge1_i| * max|(direction x edge2)_i| (a = edge1 . (direction x edge2) = det * 2^(2kt+kd); a scale-free ratio of the integer configuration; for rounded unit directions plus the forward error bound 32 eps * sum|terms| of the computed a) are not asserted; every other non-zero determinant is asserted as a proper crossing however small |a| is in absolute terms (an absolute threshold T::epsilon() made triangles smaller than ~sqrt(eps) invisible: finding F15, repaired). Floats: hit/miss is asserted when every barycentric coordinate is farther from 0 than its forward error bound 2 * 16 eps * (sum|numerator terms| + |u| sum|determinant terms|) / |det| + 4 eps |u|, the parameter within the same bound; crossings exactly on an edge are decided in Rat only (there also 2^-20 .. 2^-60 beside an edge)",
+            "ray-edge-*: floats decide crossings exactly on the boundary only where no rounding can occur: integer inputs times 2^k, determinant +-2^m (unimodular columns times powers of two, so the reciprocal is exact), barycentric coordinates multiples of 1/4, integer hit parameter, and the largest sum of |terms| of every dot / cross product of the inputs below 2^24 (f32) / 2^53 (f64) -- checked per case, otherwise not asserted. Then every correct evaluation yields exact u, v, u+v, tau, and Some(tau) with origin + tau*direction == crossing is compared with ==. With determinant 3*2^m / 5*2^m (edges through v0 and vertex v0 only: the deciding numerators are exact zeros, the other coordinates are >= 1/4 from their bounds) the parameter is compared within 4 eps. |a| >= 16 T::epsilon() by construction",
+            "*-near-*: integer coordinates (|coordinate| < 2^53 resp. 2^24, differences exact), exact i128 oracle D2 <= R^2; the documented formula sqrt(sum of squares) <= radius has relative error <= 2.5 u in the distance (3 roundings under the sqrt count half, the sqrt one; the radius and r1 + r2 are exact), so it is forced wherever |D2 - R^2| > 5 u R^2; the band |D2 - R^2| <= 4 eps R^2 = 8 u R^2 (relative 2 eps in the distance: 4.4e-16 f64, 2.4e-7 f32) is not asserted, everything else is",
             "tolerances of every scaled check are relative to the magnitudes at that scale (no floor of 1): seg*-tiny/huge 32..64 eps * max|coordinate| (squares: 4 max^2), shape-scale 4..6 eps * |result|, collision vector 8 eps * |off_i|/d * (r1+r2+d) * 2^k",
             "preconditions of the base checks: radii >= 0; distinct centres for the collision vector; segments are either exactly degenerate (start == end, for which the code returns start) or ordinary: the seg*-tiny checks scale the arrangements down to 2^-40 so that 0 < |end-start|^2 <= T::epsilon() is covered (the base seg* checks keep squared length >= 1/64); ray-triangle determinants of ray-rat / ray-f64 are exactly 0 or >= 1e-3 in magnitude (kept clear of any parallel-test threshold; Rat's epsilon is 2^-52) -- the ray-scale-* checks cover small determinants at every scale; seg*-huge scale up to 2^400 (f32 2^44, Rat 2^16) where |end-start|^2 and the dot products stay finite",
             "the ray direction need not be normalised for the asserted statement (Some(t) with origin + t*direction the crossing point); a share of the cases uses exactly normalised (Pythagorean) directions",
